@@ -148,7 +148,7 @@ func c26Native(n int) {
 		p = base + p // an absolute path of the model lives under the temporary base directory
 	}
 	out := SandboxJoin(root, p)
-	sym.Observe("out", strings.Replace(out, base, "", 1))
+	sym.Observe("out", strings.ReplaceAll(out, base, "")) // the base may occur twice: an absolute path outside the root is re-rooted
 	// resolve the longest existing ancestor for real
 	existing := out
 	for {
